@@ -5,10 +5,17 @@
    evaluation order (fcEl); over the reals  W[o] * Σ_d x[b][d] + B[o].  Rows are independent.
    The layer's two parameter cells hold the tensors last written through the Weights()
    pointers: after ANY sequence of replacements the next Forward uses the last tensor written
-   into each cell (fc_weights_live, on the scenario interpreter). *)
+   into each cell (fc_weights_live, on the scenario interpreter).
+   Gradient half (Proofs/GradFcP.v), over the reals: with an arbitrary upstream gradient gy on the
+   layer's output, processing the layer's nine nodes (the model's process_node, in the order
+   back-propagation visits them) never fails and ADDS to the previous gradients of W, B, x:
+     dW[o] = rdc * Σ_b gy[b][o] * Σ_d x[b][d],  dB[o] = rdc * Σ_b gy[b][o],  dx[b][d] = Σ_o gy[b][o] * W[o],
+   with rdc = 1 for the summing Broadcast rule the property demands and 1/batch for the pinned
+   averaging rule (known finding D2); the factors are the partial derivatives of the formula. *)
 From Coq Require Import List ZArith Bool Reals.
 From Qeep Require Import Model.Scalar Model.Nd Model.Data Model.Api Model.Grad Model.Components Model.Scenario.
-From Qeep Require Import Proofs.NdP Proofs.CompP Proofs.FcP Spec.RScalar Proofs.FcRP.
+From Qeep Require Import Proofs.NdP Proofs.CompP Proofs.FcP Spec.RScalar Spec.VjpSpec Proofs.FcRP.
+From Qeep Require Proofs.GradFcP.
 Import ListNotations.
 
 Theorem forward_value :
@@ -206,3 +213,137 @@ Theorem forward_uses_last_written_parameters :
   fin sealv s' (fc_forward (st_heap s) w b args (Some (length (st_env s) + length l)%nat)).
 Proof. exact @fc_weights_live. Qed.
 Print Assumptions forward_uses_last_written_parameters.
+
+Theorem backward_delivers_the_three_gradients :
+  forall (thr : R) (draw : bool -> nat -> R) (rd : bred) (h : @heap R) (w b x : nat) 
+    (name : option nat) (wv bv xv : tensor R) (O0 B F : nat) (h1 : @heap R) 
+    (y : nat) (hh : @heap R) (log : list (nat * tensor R)) (gy : tensor R),
+  @valOf R h w = @Some (tensor R) wv ->
+  @valOf R h b = @Some (tensor R) bv ->
+  @valOf R h x = @Some (tensor R) xv ->
+  @wf R wv ->
+  @wf R bv ->
+  @wf R xv ->
+  @dims R wv = [O0] ->
+  @dims R bv = [O0] ->
+  @dims R xv = [B; F] ->
+  @trackedOf R h w = true ->
+  @dirtyOf R h w = false ->
+  @trackedOf R h b = true ->
+  @dirtyOf R h b = false ->
+  @dirtyOf R h x = false ->
+  w <> b ->
+  @fc_forward R (R_scalar thr draw) h w b [@Some nat x] name = (h1, @Ok nat y) ->
+  @BackpropP.sameS R h1 hh ->
+  @gradOf R hh y = @Some (tensor R) gy ->
+  @wf R gy ->
+  @dims R gy = [B; O0] ->
+  (forall i : nat, (@length (@node R) h <= i < y)%nat -> @gradOf R hh i = @None (tensor R)) ->
+  GradFcP.okPrior (@gradOf R hh w) [O0] ->
+  GradFcP.okPrior (@gradOf R hh b) [O0] ->
+  GradFcP.okPrior (@gradOf R hh x) [B; F] ->
+  y = (@length (@node R) h + 8)%nat /\
+  @length (@node R) h1 = (@length (@node R) h + 9)%nat /\
+  (exists (hh' : @heap R) (log' : list (nat * tensor R)),
+     @fold_left (@heap R * list (nat * tensor R) * res unit) nat
+       (@Backprop.process_node R (R_scalar thr draw) rd (fun (_ : option nat) (g : tensor R) => g))
+       (@rev nat (seq (@length (@node R) h) 9)) (hh, log, @Ok unit tt) = (hh', log', @Ok unit tt) /\
+     @BackpropP.sameS R hh hh' /\
+     (forall k : nat,
+      (k < @length (@node R) h)%nat -> k <> w -> k <> b -> k <> x -> @gradOf R hh' k = @gradOf R hh k) /\
+     (exists gw : tensor R,
+        @gradOf R hh' w = @Some (tensor R) gw /\
+        @dims R gw = [O0] /\
+        @wf R gw /\
+        (forall o : nat,
+         (o < O0)%nat ->
+         elt gw [o] =
+         GradFcP.prior (@gradOf R hh w) [o] +
+         VjpGatherP.rdc rd B *
+         GradFcP.SumN B
+           (fun bi : nat => elt gy [bi; o] * GradFcP.SumN F (fun d : nat => elt xv [bi; d])))) /\
+     (exists gb : tensor R,
+        @gradOf R hh' b = @Some (tensor R) gb /\
+        @dims R gb = [O0] /\
+        @wf R gb /\
+        (forall o : nat,
+         (o < O0)%nat ->
+         elt gb [o] =
+         GradFcP.prior (@gradOf R hh b) [o] +
+         VjpGatherP.rdc rd B * GradFcP.SumN B (fun bi : nat => elt gy [bi; o]))) /\
+     (if @trackedOf R h x
+      then
+       exists gx : tensor R,
+         @gradOf R hh' x = @Some (tensor R) gx /\
+         @dims R gx = [B; F] /\
+         @wf R gx /\
+         (forall bi d : nat,
+          (bi < B)%nat ->
+          (d < F)%nat ->
+          elt gx [bi; d] =
+          GradFcP.prior (@gradOf R hh x) [bi; d] +
+          GradFcP.SumN O0 (fun o : nat => elt gy [bi; o] * elt wv [o]))
+      else @gradOf R hh' x = @gradOf R hh x)).
+Proof. exact @GradFcP.fc_backward. Qed.
+Print Assumptions backward_delivers_the_three_gradients.
+
+Theorem graph_built_by_forward :
+  forall (A : Type) (SA : Scalar A) (h : @heap A) (w b x : nat) (name : option nat)
+    (wv bv xv : tensor A) (h1 : @heap A) (y : nat),
+  @valOf A h w = @Some (tensor A) wv ->
+  @valOf A h b = @Some (tensor A) bv ->
+  @valOf A h x = @Some (tensor A) xv ->
+  @trackedOf A h w = true ->
+  @dirtyOf A h w = false ->
+  @trackedOf A h b = true ->
+  @dirtyOf A h b = false ->
+  @dirtyOf A h x = false ->
+  @fc_forward A SA h w b [@Some nat x] name = (h1, @Ok nat y) ->
+  exists w1v x1v bwv bxv y1v y2v by2v bbv yv : tensor A,
+    @v_unsqueeze A wv 1 = @Ok (tensor A) w1v /\
+    @v_unsqueeze A xv 1 = @Ok (tensor A) x1v /\
+    @v_broadcast A w1v
+      (@map nat Z Z.of_nat (mmShape (targetBroadcastDims (@dims A w1v) (@dims A x1v)) (@dims A w1v))) =
+    @Ok (tensor A) bwv /\
+    @v_broadcast A x1v
+      (@map nat Z Z.of_nat (mmShape (targetBroadcastDims (@dims A w1v) (@dims A x1v)) (@dims A x1v))) =
+    @Ok (tensor A) bxv /\
+    @matMul A SA bwv bxv = @Some (tensor A) y1v /\
+    @v_reduceAlong A SA RdSum y1v 2 = @Ok (tensor A) y2v /\
+    @v_broadcast A y2v (@map nat Z Z.of_nat (targetBroadcastDims (@dims A y2v) (@dims A bv))) =
+    @Ok (tensor A) by2v /\
+    @v_broadcast A bv (@map nat Z Z.of_nat (targetBroadcastDims (@dims A y2v) (@dims A bv))) =
+    @Ok (tensor A) bbv /\
+    @apply2 A (@binaryF A SA BiAdd) by2v bbv = @Some (tensor A) yv /\
+    y = S (S (S (S (S (S (S (S (@length (@node A) h)))))))) /\
+    h1 = @GradFcP.fc_heap A h w b x (@trackedOf A h x) w1v x1v bwv bxv y1v y2v by2v bbv yv name.
+Proof. exact @GradFcP.fc_structure. Qed.
+Print Assumptions graph_built_by_forward.
+
+Theorem factor_is_partial_derivative_wrt_W :
+  forall (W Bs : nat -> R) (X : nat -> nat -> R) (F bi o : nat),
+  @Derive.is_derive Hierarchy.R_AbsRing Hierarchy.R_NormedModule
+    (fun t : Hierarchy.AbsRing.sort Hierarchy.R_AbsRing =>
+     GradFcP.fcY (fun o' : nat => if o' =? o then t else W o') Bs X F bi o) 
+    (W o) (GradFcP.SumN F (fun d : nat => X bi d)).
+Proof. exact @GradFcP.fcY_dW. Qed.
+Print Assumptions factor_is_partial_derivative_wrt_W.
+
+Theorem factor_is_partial_derivative_wrt_B :
+  forall (W Bs : nat -> R) (X : nat -> nat -> R) (F bi o : nat),
+  @Derive.is_derive Hierarchy.R_AbsRing Hierarchy.R_NormedModule
+    (fun t : Hierarchy.AbsRing.sort Hierarchy.R_AbsRing =>
+     GradFcP.fcY W (fun o' : nat => if o' =? o then t else Bs o') X F bi o) 
+    (Bs o) 1.
+Proof. exact @GradFcP.fcY_dB. Qed.
+Print Assumptions factor_is_partial_derivative_wrt_B.
+
+Theorem factor_is_partial_derivative_wrt_x :
+  forall (W Bs : nat -> R) (X : nat -> nat -> R) (F bi o d : nat),
+  (d < F)%nat ->
+  @Derive.is_derive Hierarchy.R_AbsRing Hierarchy.R_NormedModule
+    (fun t : Hierarchy.AbsRing.sort Hierarchy.R_AbsRing =>
+     GradFcP.fcY W Bs (fun b' d' : nat => if (b' =? bi) && (d' =? d) then X b' d' + t else X b' d') F bi
+       o) 0 (W o).
+Proof. exact @GradFcP.fcY_dX. Qed.
+Print Assumptions factor_is_partial_derivative_wrt_x.
